@@ -19,7 +19,8 @@ def showState (s : State) : String :=
   " ".intercalate <| (List.range cs.length).map fun i =>
     let g := s.globals i
     let on := match cs[i]? with
-      | some c => if c.base = "_feature_flag" then (if flagOn c.flagDefault g then "T" else "F") else "-"
+      | some c => if c.base = "_feature_flag" then
+          (if flagOn c.flagDefault g then "T" else "F") ++ (if isDefault g then "D" else "d") else "-"
       | none => "-"
     s!"{sv g.a}|{sv g.b}|{sv g.c}|{on}"
 
@@ -47,6 +48,15 @@ def stepLine (s : State) (line : String) : State × String :=
   | ["poke", c, v] =>
     match c.toNat?, pv v with
     | some c, some v => let s' := step tableK s (.poke c v); (s', showState s')
+    | _, _ => bad
+  | ["set", c, a, b, d] =>
+    match c.toNat?, pv a, pv b, pv d with
+    | some c, some a, some b, some d =>
+      let s' := step tableK s (.set c ⟨a, b, d⟩); (s', showState s')
+    | _, _, _, _ => bad
+  | ["dvalue", c, d] =>
+    match c.toNat?, d.toNat? with
+    | some c, some d => (s, match dtypeValue d (s.globals c) with | some v => sv v | none => "raise")
     | _, _ => bad
   | ["reset"] => let s' : State := ⟨fun _ => ⟨none, none, none⟩, fun _ => none⟩; (s', "ok")
   | _ => bad
